@@ -6,7 +6,10 @@ import (
 	"strings"
 	"time"
 
+	"github.com/GuanceCloud/platypus/pkg/ast"
+	"github.com/GuanceCloud/platypus/pkg/engine"
 	plrt "github.com/GuanceCloud/platypus/pkg/engine/runtime"
+	v2 "github.com/GuanceCloud/platypus/pkg/engine/runtimev2"
 	"github.com/GuanceCloud/platypus/pkg/errchain"
 
 	"verif/mc/internal/drv"
@@ -24,6 +27,9 @@ type c08Case struct {
 	NoCheck string `json:"nocheck,omitempty"`   // builtin removed from the check table only
 	Lo      int    `json:"offender_start"`      // byte extent of the offender, -1 = program is valid
 	Hi      int    `json:"offender_end"`
+	Recheck bool   `json:"recheck,omitempty"` // load, then the exported Check under another table
+	TableA  string `json:"table_a,omitempty"`
+	TableB  string `json:"table_b,omitempty"`
 }
 
 // argument kinds of the builtins' checkers (reference table, DESIGN.md appendix A)
@@ -219,6 +225,40 @@ func c08Contexts() []c08Ctx {
 			return rt.For(nil, nil, nil, rt.Block(rt.If(Id("c"), rt.Block(rt.ForIn("v", Id("l"), rt.Block(rt.If(Id("d"), rt.Block(), rt.Block(e)))))), rt.Break()))
 		})},
 	}
+	many := func(f func(e *rt.Node) []*rt.Node) func(e *rt.Node) []*rt.Node {
+		return func(e *rt.Node) []*rt.Node {
+			out := f(e)
+			for i := range out {
+				out[i] = rt.Normalize(out[i])
+			}
+			return out
+		}
+	}
+	cs = append(cs,
+		// after a break / continue met earlier in the same loop body (the rest of the body is still checked)
+		c08Ctx{"loop-body-after-break-in-if", one(func(e *rt.Node) *rt.Node {
+			return rt.For(nil, Id("c"), nil, rt.Block(rt.If(Id("d"), rt.Block(rt.Break())), e))
+		})},
+		c08Ctx{"loop-body-after-continue-in-elif", one(func(e *rt.Node) *rt.Node {
+			return rt.ForIn("v", Id("l"), rt.Block(rt.If(Id("c"), rt.Block(), Id("d"), rt.Block(rt.Continue())), rt.If(Id("v"), rt.Block(e))))
+		})},
+		c08Ctx{"loop-body-after-bare-break", one(func(e *rt.Node) *rt.Node { return rt.For(nil, Id("c"), nil, rt.Block(rt.Break(), e)) })},
+		c08Ctx{"loop-body-after-bare-continue", one(func(e *rt.Node) *rt.Node { return rt.ForIn("v", Id("l"), rt.Block(rt.Continue(), rt.Call("p", e))) })},
+		c08Ctx{"outer-body-after-inner-loop-with-break", one(func(e *rt.Node) *rt.Node {
+			return rt.ForIn("v", Id("l"), rt.Block(rt.For(nil, nil, nil, rt.Block(rt.Break())), e))
+		})},
+		c08Ctx{"after-loop-with-break-in-if", many(func(e *rt.Node) []*rt.Node {
+			return []*rt.Node{rt.For(nil, Id("c"), nil, rt.Block(rt.If(Id("d"), rt.Block(rt.Break()), rt.Block(rt.Continue())))), e}
+		})},
+		// after text that is not ASCII (byte offsets and character counts differ from here on)
+		c08Ctx{"after-non-ascii-line", many(func(e *rt.Node) []*rt.Node {
+			return []*rt.Node{rt.Assign("=", Id("s"), S("héé 日本語")), rt.Assign("=", Id("y"), I(1)), e}
+		})},
+		c08Ctx{"after-non-ascii-same-line", one(func(e *rt.Node) *rt.Node { return rt.Assign("=", Id("x"), rt.List(S("é日"), e)) })},
+		c08Ctx{"after-non-ascii-identifier", many(func(e *rt.Node) []*rt.Node {
+			return []*rt.Node{rt.Assign("=", rt.QId("клю́ч"), I(1)), rt.If(Id("c"), rt.Block(rt.Call("p", rt.QId("клю́ч")), e))}
+		})},
+	)
 	for _, op := range []string{"+=", "-=", "*=", "/=", "%="} {
 		op := op
 		cs = append(cs, c08Ctx{"compound-rhs" + op, one(func(e *rt.Node) *rt.Node { return rt.Assign(op, Id("x"), e) })})
@@ -586,6 +626,7 @@ func c08Run(w *run.Worker) {
 			}
 		}
 	}
+	c08Recheck(w, rules, ctxs)
 	// ---- function tables: each builtin removed in turn / call entry without check entry
 	for _, r := range rules {
 		for variant := 0; variant < 2; variant++ {
@@ -624,10 +665,238 @@ func c08Run(w *run.Worker) {
 	}
 }
 
+// c08Recheck: the verdict of the exported Check method on an already loaded
+// script depends only on the tree and the table it is given — it equals the
+// verdict of a fresh load under that table (the state reached by load-then-
+// recheck is compared with the state reached from the initial state).
+func c08Recheck(w *run.Worker, rules []c08Rule, ctxs []c08Ctx) {
+	I := rt.Int
+	errStr := func(e error) string {
+		if e == nil {
+			return "<accepted>"
+		}
+		if pe, ok := e.(*errchain.PlError); ok {
+			if pe == nil {
+				return "<accepted>"
+			}
+			return pe.Error()
+		}
+		return e.Error()
+	}
+	// v1: load under the full table, re-check under the table without this builtin's check entry
+	call, check := drv.Tables()
+	for _, r := range rules {
+		for ci, c := range ctxs {
+			if ci%4 != 0 && !w.Thorough {
+				continue
+			}
+			if c.Name == "len-arg" || c.Name == "builtin-arg" || c.Name == "strfmt-arg" || strings.HasPrefix(c.Name, "v2-") {
+				continue
+			}
+			if !w.Take() {
+				continue
+			}
+			src, _ := rt.PrintProg(c.Build(r.validCall(r.Min)), nil)
+			cs := c08Case{Source: src, NoCheck: r.Name, Lo: -1, Hi: -1, Recheck: true}
+			w.Eval()
+			ok, errs := drv.LoadWith(map[string]string{"s.p": src, "other.p": "p(1)"}, call, check)
+			if e, bad := errs["s.p"]; bad {
+				w.Violate("C08:v1:valid-program-rejected:"+c.Name+":"+r.Name, fmt.Sprintf("valid program rejected: %v\n%s", e, src), cs)
+				continue
+			}
+			sc := ok["s.p"]
+			recheck := func(tbl map[string]plrt.FuncCheck) (out string) {
+				defer func() {
+					if x := recover(); x != nil {
+						out = fmt.Sprintf("PANIC %v", x)
+					}
+				}()
+				if e := sc.Check(tbl); e != nil {
+					return e.Error()
+				}
+				return "<accepted>"
+			}
+			if got := recheck(check); got != "<accepted>" {
+				w.Violate("C08:v1:recheck:second-check-under-same-table-differs", fmt.Sprintf("loaded, then Check with the same table: %s\n%s", got, src), cs)
+			}
+			reduced := map[string]plrt.FuncCheck{}
+			for k, v := range check {
+				if k != r.Name {
+					reduced[k] = v
+				}
+			}
+			_, ferrs := drv.LoadWith(map[string]string{"s.p": src, "other.p": "p(1)"}, call, reduced)
+			fresh := errStr(ferrs["s.p"])
+			got := recheck(reduced)
+			w.Outcome("recheck|" + r.Name + "|" + b2s(got == fresh))
+			if got != fresh {
+				w.Violate("C08:v1:recheck:differs-from-fresh-load-under-that-table", fmt.Sprintf("loaded under the full table, then Check(table without %s): %s\nfresh load under that table: %s\n%s", r.Name, got, fresh, src), cs)
+			}
+			if got := recheck(check); got != "<accepted>" {
+				w.Violate("C08:v1:recheck:check-under-first-table-after-another-differs", fmt.Sprintf("%s\n%s", got, src), cs)
+			}
+		}
+	}
+	// v2: the probe table with `id` declared with different parameter lists
+	mkID, variants := c08MkID, c08IDVariants()
+	calls := []nodeFn{
+		func() *rt.Node { return rt.Call("id") }, func() *rt.Node { return rt.Call("id", I(1)) }, func() *rt.Node { return rt.Call("id", I(1), I(2)) },
+		func() *rt.Node { return rt.Call("id", rt.Named("x", I(1))) }, func() *rt.Node { return rt.Call("id", rt.Named("z", I(1))) },
+		func() *rt.Node { return rt.Call("id", I(1), rt.Named("y", I(2))) }, func() *rt.Node { return rt.Call("id", rt.Named("y", I(2)), rt.Named("x", I(1))) },
+		func() *rt.Node { return rt.Call("id", I(1), I(2), I(3)) },
+	}
+	v1only := map[string]bool{"builtin-arg": true, "len-arg": true, "strfmt-arg": true, "call-named-arg": true, "call-depth-2-named": true}
+	for ci, c := range ctxs {
+		if (ci%6 != 0 && !w.Thorough) || v1only[c.Name] {
+			continue
+		}
+		for _, mk := range calls {
+			src, _ := rt.PrintProg(c.Build(mk()), nil)
+			for ai, a := range variants {
+				if !w.Take() {
+					continue
+				}
+				ta := mkID(a.ps)
+				w.Eval()
+				sc, err := c08ParseV2(src, ta)
+				if err != nil {
+					continue
+				}
+				for bi, b := range variants {
+					if ai == bi {
+						continue
+					}
+					tb := mkID(b.ps)
+					_, ferr := c08ParseV2(src, tb)
+					fresh := errStr(ferr)
+					sc.Fn = tb
+					got := func() (out string) {
+						defer func() {
+							if x := recover(); x != nil {
+								out = fmt.Sprintf("PANIC %v", x)
+							}
+						}()
+						if e := sc.Check(); e != nil {
+							return e.Error()
+						}
+						return "<accepted>"
+					}()
+					w.Eval()
+					w.Outcome("recheck-v2|" + a.name + "|" + b.name + "|" + b2s(got == fresh))
+					if got != fresh {
+						w.Violate("C08:v2:recheck:differs-from-fresh-load-under-that-table",
+							fmt.Sprintf("loaded with id%s, then Check() with id%s: %s\nfresh load with id%s: %s\n%s", a.name, b.name, got, b.name, fresh, src),
+							c08Case{Source: src, V2: true, Lo: -1, Hi: -1, Recheck: true, TableA: a.name, TableB: b.name})
+					}
+				}
+			}
+		}
+	}
+}
+
+func c08MkID(params []*v2.Param) map[string]*v2.Fn {
+	t := drv.V2Fns()
+	ps := params
+	t["id"] = &v2.Fn{
+		Desc:      v2.FnDesc{Name: "id", Params: ps, Returns: []*v2.Param{{Desc: "value"}}},
+		CallCheck: func(ctx *v2.Task, e *ast.CallExpr) *errchain.PlError { return v2.CheckPassParam(ctx, e, ps) },
+		Call: func(ctx *v2.Task, e *ast.CallExpr) *errchain.PlError {
+			ctx.Regs.ReturnAppend(v2.V{V: int64(1), T: ast.Int})
+			return nil
+		},
+	}
+	return t
+}
+
+type c08IDVariant struct {
+	name string
+	ps   []*v2.Param
+}
+
+func c08IDVariants() []c08IDVariant {
+	dflt := func() any { return int64(9) }
+	return []c08IDVariant{
+		{"()", nil}, {"(x)", []*v2.Param{{Name: "x"}}}, {"(x, y)", []*v2.Param{{Name: "x"}, {Name: "y"}}}, {"(z)", []*v2.Param{{Name: "z"}}},
+		{"(x, y=9)", []*v2.Param{{Name: "x"}, {Name: "y", Val: dflt}}}, {"(...x)", []*v2.Param{{Name: "x", Variable: true}}},
+	}
+}
+
+// c08RecheckReplay re-executes one recorded re-check case.
+func c08RecheckReplay(c c08Case) (bool, string) {
+	str := func(e error) string {
+		if e == nil {
+			return "<accepted>"
+		}
+		return e.Error()
+	}
+	if c.V2 {
+		var a, b []*v2.Param
+		for _, v := range c08IDVariants() {
+			if v.name == c.TableA {
+				a = v.ps
+			}
+			if v.name == c.TableB {
+				b = v.ps
+			}
+		}
+		sc, err := c08ParseV2(c.Source, c08MkID(a))
+		if err != nil {
+			return false, "does not load under table A: " + err.Error()
+		}
+		_, ferr := c08ParseV2(c.Source, c08MkID(b))
+		sc.Fn = c08MkID(b)
+		got := "<accepted>"
+		if e := sc.Check(); e != nil {
+			got = e.Error()
+		}
+		return got != str(ferr), fmt.Sprintf("re-check under id%s: %s\nfresh load under id%s: %s", c.TableB, got, c.TableB, str(ferr))
+	}
+	call, check := drv.Tables()
+	ok, errs := drv.LoadWith(map[string]string{"s.p": c.Source, "other.p": "p(1)"}, call, check)
+	if e, bad := errs["s.p"]; bad {
+		return true, "valid program rejected: " + e.Error()
+	}
+	reduced := map[string]plrt.FuncCheck{}
+	for k, v := range check {
+		if k != c.NoCheck {
+			reduced[k] = v
+		}
+	}
+	_, ferrs := drv.LoadWith(map[string]string{"s.p": c.Source, "other.p": "p(1)"}, call, reduced)
+	got := "<accepted>"
+	if e := ok["s.p"].Check(reduced); e != nil {
+		got = e.Error()
+	}
+	again := "<accepted>"
+	if e := ok["s.p"].Check(check); e != nil {
+		again = e.Error()
+	}
+	return got != str(ferrs["s.p"]) || again != "<accepted>", fmt.Sprintf("re-check without %s: %s\nfresh load under that table: %s\nfirst table again: %s", c.NoCheck, got, str(ferrs["s.p"]), again)
+}
+
+func b2s(b bool) string {
+	if b {
+		return "same"
+	}
+	return "differs"
+}
+
+func c08ParseV2(src string, t map[string]*v2.Fn) (sc *v2.Script, err error) {
+	defer func() {
+		if r := recover(); r != nil {
+			sc, err = nil, fmt.Errorf("PANIC %v", r)
+		}
+	}()
+	return engine.ParseV2("s.p", src, t)
+}
+
 func c08Replay(raw json.RawMessage) (bool, string) {
 	var c c08Case
 	if err := json.Unmarshal(raw, &c); err != nil {
 		return false, err.Error()
+	}
+	if c.Recheck {
+		return c08RecheckReplay(c)
 	}
 	l := newC08Loader(c.V2, c.Removed, c.NoCheck)
 	err := l.load(c.Source)
@@ -654,7 +923,7 @@ func init() {
 		Level: "model_checking",
 		Rule: "every syntactic position (100+ contexts: conditions, every for clause as expression and assignment, bodies, list/map elements at depth, map keys, every index level incl. LHS, slice object and every start/end/step bound in every form where it exists on identifier and literal objects, positional/named call arguments at depth 1-2, both sides of all 6 assignment kinds and tuple assignment, unary/binary/in/paren operands, attribute parts, deep blocks) " +
 			"x every offender (unknown function; for each of 22 builtins every wrong argument count 0..4 and every wrong argument kind its rule forbids) on the v1 check pass; v2: unknown function and every unbindable call shape; break/continue in 7 invalid and 5 valid hand-written placements plus, for each of the 18 loop forms (8 three-clause shapes and for-in, empty and non-empty body), after the loop, in an if after it, after a nested one, and validly in an outer loop after an inner one — on both passes; " +
-			"function tables: full, each builtin removed, each call entry without check entry; oracle: rejected iff offender present, first error position inside the offender's byte extent; every valid call of every builtin loads in every context",
+			"function tables: full, each builtin removed, each call entry without check entry; re-check: a loaded script's exported Check under another table (v1: each builtin's check entry removed; v2: id declared with 6 parameter lists, 8 call shapes) gives the verdict and message of a fresh load under that table, and the first table's verdict again afterwards; contexts also after break/continue met earlier in the loop body and after non-ASCII text; oracle: rejected iff offender present, first error position inside the offender's byte extent; every valid call of every builtin loads in every context",
 		Assumptions: []string{"the per-builtin argument rules are the reference table of DESIGN.md appendix A (arity range and literal-kind constraints)"},
 		Run:            c08Run,
 		Replay:         c08Replay,
